@@ -85,6 +85,8 @@ def run(ctx, f, rep):
     from . import hs
     for role, label in (("greet", "greet_exchange"), ("ready", "ready_exchange"), ("driver", "peer_connected")):
         hb = hs.co(f, role)
+        if hb is None and role == "greet" and hs.greeting_in_driver(f):
+            continue        # the driver exchanges the greetings itself: examined as the driver
         if hb is None:
             rep.bad("R20.4", "R20.4|%s|anchor" % label, "%s (found by signature) not found (anchor-missing)" % label)
             continue
